@@ -70,5 +70,8 @@ pub fn zoo_bits() -> impl Strategy<Value = u64> {
         1 => Just(2.5f64.to_bits()),
         1 => Just(0.000_000_5f64.to_bits()),
         1 => prop_oneof![Just(1e-20f64), Just(3.3e-25), Just(7.25e-18), Just(1e-40), Just(-4.4e-19)].prop_map(f64::to_bits),
+        // small magnitudes with a full mantissa: the 16th and 17th decimal carry information
+        2 => (1e-6f64..1e-2).prop_map(f64::to_bits),
+        1 => (-1e-3f64..-1e-7).prop_map(f64::to_bits),
     ]
 }
